@@ -8,11 +8,11 @@ import (
 
 // Outcome of a reference run.
 type Outcome struct {
-	Trace    []string
-	Class    string // ok | panic:<kind> | exit:<n> | test-fail | budget | latitude | ref-type-error | resource
-	Msg      string
-	Steps    int
-	Interp   *Interp
+	Trace  []string
+	Class  string // ok | panic:<kind> | exit:<n> | test-fail | budget | latitude | ref-type-error | resource
+	Msg    string
+	Steps  int
+	Interp *Interp
 }
 
 // Opts configures a reference run.
